@@ -29,6 +29,21 @@ PROP_RULE = ("entry cases: one request text through one entry point against one 
 
 E = "http://e/"
 MB = ["é", "€", "\U0001F600"]          # 2-, 3- and 4-byte characters
+# characters whose to_lowercase / to_uppercase changes the UTF-8 length:
+# U+212A KELVIN SIGN (3 -> 1), U+0130 (2 -> 3), U+1E9E (3 -> 2), U+023A (2 -> 3), U+FB00 (upper: 3 -> 2), U+0149 (upper: 2 -> 3)
+CASE = ["\u212a", "\u0130", "\u1e9e", "\u023a", "\ufb00", "\u0149"]
+# malformed requests that get past the early diagnostics (balanced braces, even quote count, `where` present or
+# no `select`) and so reach check_missing_prefix / check_missing_triple_separator, with a literal to mutate
+BALANCED_MALFORMED = [
+    'INSERT DATA { <urn:a> <urn:b> "v" } .',
+    'SELECT ?s WHERE { ?s ?p "v" } LIMIT',
+    'DELETE WHERE { ?s ?p "v" . ?s ?p ?é€ }',
+    'SELECT * WHERE { ?s <http://e/p> "lit" } trailing',
+    'PREFIX e: <http://e/> SELECT ?s WHERE { ?s e:p "x" . ?s nope:q ?o } ORDER',
+    'INSERT { ?s <http://e/r> "w" } WHERE { ?s <http://e/p> ?o } ;',
+    'DELETE DATA { <http://e/a> <http://e/p> "x" } é',
+    'select ?x where { ?x ?y "z" } limit x',
+]
 
 
 # ---------------------------------------------------------------------------------------------
@@ -170,6 +185,7 @@ GARBAGE = [
     "", " ", "\n", "é", "€", "\U0001F600", "SELECT", "SELECT *", "SELECT * WHERE", "SELECT * WHERE {", "SELECT * { ?s ?p ?o",
     "select ?x { ?x ?y }", "WHERE { ?s ?p ?o }", "INSERT", "INSERT DATA", "INSERT DATA {", "DELETE", "DELETE WHERE", "DELETE { } WHERE",
     "}{", "{}", "\"", "'''", "<", "<<", "<< >>", "?", "$", "#", "#é", "# \U0001F600\n", "\\u00e9", "PREFIX", "PREFIX :", "PREFIX 1: <x>",
+    'INSERT DATA { <urn:a> <urn:b> "\u212a" } .', 'DELETE WHERE { ?s ?p "\u0130" . ?s ?p ?é€ }', 'SELECT ?s WHERE { ?s ?p "\u212a\u1e9e" } LIMIT',
     "SELECT * WHERE { ?s 1:p ?o } #é", "INSERT DATA { ?x <p> <o> } #€", "DELETE DATA { _:b <p> <o> } #\U0001F600",
     "SELECT * WHERE { GRAPH 1:x { ?s ?p ?o } } #é", "PREFIX 1: <http://e/> SELECT * WHERE { ?s ?p ?o } #é",
     "INSERT DATA { ?x <p> <o> } } #€", "SELECT ?x WHERE { ?x <p> ?y } é", "INSERT DATA { <a> <b> \"é\" } €",
@@ -199,7 +215,7 @@ def mutate(rng, text):
     elif r < 0.5:
         chars = chars[:i]
     elif r < 0.7:
-        chars.insert(i, rng.choice(MB + ["{", "}", "\"", "#", ":"]))
+        chars.insert(i, rng.choice(MB + CASE + ["{", "}", "\"", "#", ":"]))
     elif r < 0.85:
         chars[i] = chars[i].swapcase()
     else:
@@ -701,6 +717,14 @@ def run(ctx):
     if T:
         texts += ["".join(t) for t in itertools.product(big, repeat=3)]
         texts += ["".join(t) for t in itertools.product(small, repeat=4)]
+    # characters whose case mapping changes the byte length (a slice of a case-mapped copy at an offset of the
+    # original text would be off a boundary or out of range)
+    casey = ["a", CASE[0], CASE[1], CASE[3], CASE[2]]
+    for L in (1, 2, 3):
+        texts += ["".join(t) for t in itertools.product(casey, repeat=L)]
+    texts += [a + b for a in CASE for b in big] + [b + a for a in CASE for b in big]
+    if T:
+        texts += ["".join(t) for t in itertools.product(["a", "é", "{", "\""] + CASE, repeat=3)]
     texts = sorted(set(texts))
     rc = []
     for t in texts:
@@ -711,7 +735,9 @@ def run(ctx):
     ctx.coverage["exhaustive_scope"] = ("format_parse_error: all %d texts of <= %s tokens over %s (and <= %s over %s) x every error slice "
                                         "(every sub-slice on character boundaries, every outside length 0..len+2); dispatch: every entry "
                                         "point and HTTP form x %d representative requests x 6 database states"
-                                        % (len(texts), "4" if T else "3", small, "3" if T else "2", big, len(REPRESENTATIVES)))
+                                        % (len(texts), "4" if T else "3", small, "3" if T else "2", big, len(REPRESENTATIVES))
+                                        + "; rendering texts also include all texts of <= 3 tokens over {a, U+212A, U+0130, U+023A, U+1E9E} and every "
+                                          "length-changing character before/after every token")
 
     # ---- exhaustive dispatch scope: every entry point x representative request x state ----
     states = [dict(FIXED_STATE), dict(FIXED_STATE, warm_stats=True), dict(FIXED_STATE, db_prefixes=[["e", "http://other/"]]),
@@ -773,12 +799,19 @@ def run(ctx):
 
     # ---- multi-byte characters at every offset of seed requests ----
     seeds = list(REPRESENTATIVES[:21])
-    while len(seeds) < (110 if T else 34):
+    while len(seeds) < (110 if T else 30):
         seeds.append(rand_select(rng) if len(seeds) % 3 else rand_update(rng))
     mbc = []
-    for sd in seeds:
+    for k, sd in enumerate(seeds):
+        # quick: the length-changing characters on every 4th seed (and on all BALANCED_MALFORMED below); thorough: all
+        chars = MB + (CASE if (T or k % 4 == 0) else [])
         for i in range(len(sd) + 1):
-            for ch in MB:
+            for ch in chars:
+                text = sd[:i] + ch + sd[i:]
+                mbc.append(case_of(FIXED_STATE, steps_for(rng, text, ["query", "update"])))
+    for sd in BALANCED_MALFORMED:
+        for i in range(len(sd) + 1):
+            for ch in CASE + (MB if T else []):
                 text = sd[:i] + ch + sd[i:]
                 mbc.append(case_of(FIXED_STATE, steps_for(rng, text, ["query", "update"])))
     ctx.sample({"steps": mbc[len(mbc) // 3]["steps"]})
